@@ -176,7 +176,7 @@ class VSharpNet(nn.Module):
         initializer_dilations: tuple[int, ...] = (1, 1, 2, 4),
         initializer_multiscale: int = 1,
         initializer_activation: ActivationType = ActivationType.PRELU,
-        auxiliary_steps: int = 0,
+        auxiliary_steps: int = -1,
         **kwargs,
     ) -> None:
         """Inits :class:`VSharpNet`.
